@@ -1,4 +1,7 @@
-From Coq Require Import ExtrOcamlBasic.
+From Coq Require Import ExtrOcamlBasic List.
 From ChibiV Require Import Common.ExtractBase Gen.C10_Consts C10.Model.
+(* Coq's List.rev is the quadratic definition (rev l ++ [x]); a full segment is ONE run of 100 000 objects, which the
+   sweep reverses: extracted to OCaml's linear List.rev (same function; trusted, see notes/C10.md (d)) *)
+Extract Inlined Constant rev => "List.rev".
 Extraction "model.ml" ext_base init try_alloc gc sweep alloc grow must_grow grow_size total_size heap_objs free_list
   unit_sz hdr_sz min_obj.
